@@ -95,7 +95,22 @@ fn cmd_worker(args: &[String]) -> i32 {
 // ---------------------------------------------------------------------------------------------
 // orchestrator
 
+/// remove scratch directories left behind by processes that no longer exist (killed workers)
+fn sweep_stale_scratch() {
+    if let Ok(rd) = std::fs::read_dir("/dev/shm") {
+        for e in rd.filter_map(|e| e.ok()) {
+            let name = e.file_name().to_string_lossy().to_string();
+            if let Some(pid) = name.strip_prefix("jammdb-verif.").and_then(|p| p.parse::<u32>().ok()) {
+                if !std::path::Path::new(&format!("/proc/{}", pid)).exists() {
+                    let _ = std::fs::remove_dir_all(e.path());
+                }
+            }
+        }
+    }
+}
+
 fn cmd_check(prop: &str, tier: &str) -> i32 {
+    sweep_stale_scratch();
     let t0 = std::time::Instant::now();
     let base = verif_seed();
     let (engine, count) = plan(prop, tier);
